@@ -39,14 +39,24 @@ ASSUMPTIONS = ["steps are large against the open-end epsilon 1e-5 (crop/extend u
                "boundary guard: on a non-representable step an OPEN end of extend_dim that is nominally a lattice point may or may not be "
                "produced (it is within an ulp of the end); closed ends and all ends on dyadic steps are exact",
                "centre placement with an odd difference may round either way",
+               "original samples of extend_dim may be NaN / +inf / -inf (they must survive as such); fills are finite",
+               "width calls also run on 2-D arrays along the first and along the second dimension; every row along the operated dimension is judged",
                "the statement does not say what extend_dim_width puts into new samples nor where their coordinates lie: not judged"]
 
 BAD = -999999
 
 
+SPECIAL = {1: float("nan"), 2: float("inf"), 3: float("-inf")}       # codes of case["sv"]
+
+
 def _d(x) -> int:
+    """Sample value as an integer; NaN / +inf / -inf get the codes CropExtend!SpecialCode(1..3), anything else BAD."""
     x = float(x)
-    return int(x) if math.isfinite(x) and x == int(x) and abs(x) < 2**30 else BAD
+    if math.isnan(x):
+        return -999901
+    if math.isinf(x):
+        return -999902 if x > 0 else -999903
+    return int(x) if x == int(x) and abs(x) < 2**30 else BAD
 
 
 def build(case):
@@ -58,7 +68,19 @@ def build(case):
         cv = xr.Variable("x", coords, attrs={"step": float(fs)})
     else:
         cv = coords
-    return xr.DataArray(np.arange(1, n + 1, dtype=float), dims=["x"], coords={"x": cv}), a, fs
+    data = np.arange(1, n + 1, dtype=float)
+    for j, code in enumerate(case.get("sv", [])):
+        if code:
+            data[j] = SPECIAL[code]                                 # an original sample that is NaN / +inf / -inf
+    od = case.get("od", 0)
+    if od:
+        # 2-D array: sample i of the operated dimension x holds i + 1 + 100*k at index k of the other dimension y
+        full = data[:, None] + 100.0 * np.arange(od)[None, :]
+        dims = ["x", "y"]
+        if case.get("ax", 1) == 2:
+            full, dims = full.T, ["y", "x"]
+        return xr.DataArray(np.ascontiguousarray(full), dims=dims, coords={"x": cv, "y": np.arange(od, dtype=float)}), a, fs
+    return xr.DataArray(data, dims=["x"], coords={"x": cv}), a, fs
 
 
 def endpoint(arr, a, fs, m):
@@ -73,10 +95,14 @@ def observe(arr, res, raised="", ends=(0.0, 0.0)):
     cin = [bits(x) for x in arr.coords["x"].data]
     eb = {"startb": bits(ends[0]), "stopb": bits(ends[1])}          # the interval ends exactly as they were passed
     if res is None:
-        return {"raised": raised, "cin": cin, "cout": [], "lout": [], "data": [], **eb}
+        return {"raised": raised, "cin": cin, "cout": [], "lout": [], "data": [], "rows": [[]], **eb}
     co = np.asarray(res.coords["x"].data, dtype=float)
+    if res.ndim == 1:
+        rows = [[_d(x) for x in np.asarray(res.data)]]
+    else:                                                           # one row per index of the other dimension
+        rows = [[_d(x) for x in np.asarray(res.isel(y=k).data)] for k in range(res.sizes["y"])]
     return {"raised": "", "cin": cin, "cout": [bits(x) for x in co], "lout": [limbs(x) for x in co],
-            "data": [_d(x) for x in np.asarray(res.data).ravel()], **eb}
+            "data": rows[0] if rows else [], "rows": rows, **eb}
 
 
 def apply_op(arr0, cur, a, fs, op, fill):
@@ -164,7 +190,8 @@ def random_cases(rng, tier):
         ms = -rng.randrange(0 if lc else 1, 60)
         me = 4 * (n - 1) + rng.randrange(0 if rc else 1, 60)
         yield {"kind": "extend", "s": rng.choice(UNITS), "a4": rng.randrange(-40, 41), "n": n, "src": src, "ms": ms, "me": me,
-               "lc": lc, "rc": rc, "fill": rng.choice([0, -7])}
+               "lc": lc, "rc": rc, "fill": rng.choice([0, -7]),
+               "sv": [rng.choice([0, 0, 0, 1, 2, 3]) if rng.random() < 0.5 else 0 for _ in range(n)]}
     for _ in range(160 * k):
         src = rng.choice(["attr", "est"])
         n = rng.randrange(2 if src == "est" else 1, 100)
@@ -174,7 +201,8 @@ def random_cases(rng, tier):
             fn = "adjust"
         s = rng.choice(WUNITS)
         yield {"kind": "width", "fn": fn, "s": s, "a4": rng.randrange(-4, 5) if s[1] > 1000 else rng.randrange(-40, 41),
-               "n": n, "src": src, "w": w, "pos": rng.choice(["start", "center", "end"])}
+               "n": n, "src": src, "w": w, "pos": rng.choice(["start", "center", "end"]),
+               **(dict(od=rng.randrange(1, 12), ax=rng.choice([1, 2])) if rng.random() < 0.4 else dict(od=0, ax=1))}
     yield from random_chains(rng, 100 * k)
 
 
